@@ -86,10 +86,14 @@ func (p *P) Init(env *core.Env) error {
 			p.concrete = append(p.concrete, t)
 		}
 	}
+	pooledTypes = map[reflect.Type]bool{}
 	for i := range poolTable {
 		v := poolTable[i].Get()
 		poolTable[i].clean = canon.Of(v)
 		add(v)
+		if t := reflect.TypeOf(v); t != nil && t.Kind() == reflect.Ptr && t.Elem().Kind() == reflect.Struct {
+			pooledTypes[t] = true
+		}
 	}
 	for _, f := range exprPutTypes {
 		add(f())
@@ -417,7 +421,56 @@ type held struct {
 	value   any
 	canon0  string
 	release func()
-	ptr     uintptr // identity of getter-obtained objects / trees (0 = none)
+	ptr     uintptr   // identity of getter-obtained objects / trees (0 = none)
+	inner   []uintptr // pooled-type nodes reachable inside a held tree: live as long as the tree is
+}
+
+// pooledTypes: the pointer types the node pools hand out (from the generated table).
+var pooledTypes map[reflect.Type]bool
+
+// innerNodes returns the addresses of all nodes of pooled types reachable from v
+// (each once; root excluded).
+func innerNodes(v any, root uintptr) []uintptr {
+	if pooledTypes == nil {
+		return nil
+	}
+	var out []uintptr
+	seen := map[uintptr]bool{}
+	var walk func(rv reflect.Value, depth int)
+	walk = func(rv reflect.Value, depth int) {
+		if depth > 60 || !rv.IsValid() {
+			return
+		}
+		switch rv.Kind() {
+		case reflect.Interface:
+			if !rv.IsNil() {
+				walk(rv.Elem(), depth+1)
+			}
+		case reflect.Ptr:
+			if rv.IsNil() {
+				return
+			}
+			p := rv.Pointer()
+			if seen[p] {
+				return
+			}
+			seen[p] = true
+			if pooledTypes[rv.Type()] && p != root {
+				out = append(out, p)
+			}
+			walk(rv.Elem(), depth+1)
+		case reflect.Struct:
+			for i := 0; i < rv.NumField(); i++ {
+				walk(rv.Field(i), depth+1)
+			}
+		case reflect.Slice, reflect.Array:
+			for i := 0; i < rv.Len(); i++ {
+				walk(rv.Index(i), depth+1)
+			}
+		}
+	}
+	walk(reflect.ValueOf(v), 0)
+	return out
 }
 
 type step struct {
@@ -470,7 +523,7 @@ type taskState struct {
 
 var holdKinds = []ops.Kind{ops.TokenizeDirect, ops.TokenizePooled, ops.Parse, ops.ParseCtx, ops.ParseMultiple, ops.ParseRecovery,
 	ops.ParserParseBytes, ops.ParserParseBytesWithTokens, ops.ParserDialect, ops.TreeSQL, ops.Extract, ops.ScanSQL, ops.ScanTree, ops.Lint, ops.Format, ops.FormatterFormat,
-	ops.ParserStrict, ops.ParserPooledOptions, ops.ParserPositions, ops.Validate, ops.ValidateMultiple, ops.ParserValidate, ops.ParseCtxCancelled, ops.TransformFromSQL, ops.ConfigLoad}
+	ops.ParserStrict, ops.ParserPooledOptions, ops.ParserPositions, ops.Validate, ops.ValidateMultiple, ops.ParserValidate, ops.ParseCtxCancelled, ops.TransformFromSQL, ops.ConfigLoad, ops.TransformRules}
 
 func ptrOf(v any) uintptr {
 	rv := reflect.ValueOf(v)
@@ -598,6 +651,17 @@ func (p *P) runTask(ts *taskState, src *tape.Source, live *liveSet) {
 							Msg: fmt.Sprintf("%s returned an *ast.AST that another holder has not released", st.op.Kind)})
 					}
 				}
+				if h.What == "tree" || h.What == "detached-part" {
+					// every pooled-type node inside the value is in the holder's hands too
+					for _, q := range innerNodes(h.Value, hh.ptr) {
+						if live.add(q) {
+							hh.inner = append(hh.inner, q)
+						} else {
+							ts.fails = append(ts.fails, core.Violation{Oracle: "pool-never-hands-out-a-live-object", Sig: "node-inside-two-live-values",
+								Msg: fmt.Sprintf("%s returned a %s containing a pooled node that is also part of another value still held", st.op.Kind, h.What)})
+						}
+					}
+				}
 				ts.held = append(ts.held, hh)
 			}
 		case 1:
@@ -615,6 +679,9 @@ func (p *P) runTask(ts *taskState, src *tape.Source, live *liveSet) {
 			if h.ptr != 0 {
 				live.remove(h.ptr)
 			}
+			for _, q := range h.inner {
+				live.remove(q)
+			}
 			if h.release != nil {
 				h.release()
 			}
@@ -624,7 +691,7 @@ func (p *P) runTask(ts *taskState, src *tape.Source, live *liveSet) {
 			hh := &held{what: "node:" + e.Type, value: n, ptr: ptrOf(n)}
 			if hh.ptr != 0 && !live.add(hh.ptr) {
 				ts.fails = append(ts.fails, core.Violation{Oracle: "pool-never-hands-out-a-live-object", Sig: e.Type,
-					Msg: fmt.Sprintf("the public getter for %s returned an object that a holder obtained earlier and has not released (it sat in the pool while live, or twice)", e.Type)})
+					Msg: fmt.Sprintf("the public getter for %s returned an object that a holder obtained earlier and has not released - directly or as a node inside a tree it holds (it sat in the pool while live, or twice)", e.Type)})
 				continue
 			}
 			if rv := reflect.ValueOf(n); rv.Kind() == reflect.Ptr && !rv.IsNil() {
